@@ -77,3 +77,24 @@ Example C05_example :
   deliveries (snd (run_ops 64 (rinit [] false) (pre ++ [Arrive forged; Arrive genuine; Arrive genuine])))
   = [([7], 1, 1)].
 Proof. vm_compute. reflexivity. Qed.
+
+(* Established connections (conn.go handleRecordContent once the handshake is complete): an
+   unprotected alert is discarded; every other record is treated as above, so the statements about
+   protected records hold unchanged. *)
+Theorem C05_unprotected_alert_inert_established :
+  forall W lease s w, unprotected_alert w = true -> recv_est true W lease s w = (s, []).
+Proof. exact unprotected_alert_inert_established. Qed.
+Print Assumptions C05_unprotected_alert_inert_established.
+
+Theorem C05_established_is_inert_or_recv :
+  forall est W lease s w,
+    recv_est est W lease s w = (s, []) \/ recv_est est W lease s w = recv W lease s w.
+Proof. exact recv_est_cases. Qed.
+Print Assumptions C05_established_is_inert_or_recv.
+
+Theorem C05_established_delivers_only_what_recv_delivers :
+  forall est W lease s w p e q,
+    In (ODeliver p e q) (snd (recv_est est W lease s w)) ->
+    In (ODeliver p e q) (snd (recv W lease s w)).
+Proof. exact deliver_only_authentic_est. Qed.
+Print Assumptions C05_established_delivers_only_what_recv_delivers.
